@@ -24,6 +24,10 @@ package auth
 //@   ensures[C09] login_announced: each Sess.Put("uid", _) => after Fire("After", EventAuth, _, _, _)
 //@   -- C09: the stamp the announcement queues is not taken back by anything queued after it
 //@   ensures[C09] stamp_survives: each Fire("After", EventAuth, _, _, _) => !(after Sess.DelAll(_)) && !(after Sess.Del("last_action"))
+//@   -- C09: an announcement that failed (a handler in the chain errored, so later ones - the
+//@   -- stamp - did not run) is an error outcome, not a completed login
+//@   ensures[C09] announcement_error_outcome: each Fire("After", EventAuth, _, _, _) -> (_, ?fe) => fe != nil ==>
+//@       (result == fe && !emits Redirect(_) && !emits Respond(_, _, _))
 //@   ensures[C01] only_uid_and_halfauth: each Sess.Put(?k, _) => k == "uid"
 //@
 //@   -- C02: the auth-hijack event (2FA interception) is fired, for the user being
@@ -60,7 +64,7 @@ package auth
 //@   -- before-auth for a correct one) is handled - as the lock module does for a locked
 //@   -- account - LoginPost itself adds nothing the client could observe
 //@   ensures[C16] handled_adds_nothing: (emits Fire(_, _, _, _, _) -> (?hd, ?e) :: hd && e == nil && !(before Fire(_, _, _, _, _))) ==>
-//@       (result == nil && !emits Respond(_, _, _) && !emits Redirect(_) && !emits Sess.Put(_, _) && !emits Sess.Del(_) && !emits Cook.Put(_, _) && !emits Cook.Del(_) &&
+//@       (result == nil && !emits Respond(_, _, _) && !emits Redirect(_) && !emits Sess.Put(_, _) && !emits Sess.Del(_) && !emits Sess.DelAll(_) && !emits Cook.Put(_, _) && !emits Cook.Del(_) &&
 //@        !emits HeaderSet(_, _, _) && !emits WriteHeader(_, _) && !emits Write(_, _) && !emits HTTPRedirect(_, _, _))
 //@   ensures[C16] first_event_sees_the_user: each Fire(_, _, ?cu, _, _) => !(before Fire(_, _, _, _, _)) ==>
 //@       (before Store.Load(_) -> (?u, ?le) :: le == nil && cu == u)
@@ -68,7 +72,7 @@ package auth
 //@   -- same page, status and message, and no session or cookie change
 //@   ensures[C16] unknown_vs_wrong: each Respond(?code, ?page, ?data) =>
 //@       (code == 200 && page == PageLogin && maplen(data) == 1 && mapget(data, DataErr) == loc(a.Authboss, TxtInvalidCredentials) &&
-//@        !emits Sess.Put(_, _) && !emits Sess.Del(_) && !emits Cook.Put(_, _) && !emits Cook.Del(_) && !emits Redirect(_) &&
+//@        !emits Sess.Put(_, _) && !emits Sess.Del(_) && !emits Sess.DelAll(_) && !emits Cook.Put(_, _) && !emits Cook.Del(_) && !emits Redirect(_) &&
 //@        !emits HeaderSet(_, _, _) && !emits WriteHeader(_, _) && !emits Write(_, _) && !emits HTTPRedirect(_, _, _))
 //@   ensures[C16] unknown_responds: (each Store.Load(_) -> (_, ?le) => le == ErrUserNotFound ==> after Respond(_, _, _)) &&
 //@       (each Fire("After", EventAuthFail, _, _, _) -> (?hd, ?e) => (!hd && e == nil) ==> after Respond(_, _, _))
